@@ -22,6 +22,7 @@ from .loop import SimLoop, EventLog
 import contextvars
 
 OWNER = contextvars.ContextVar("sim_owner", default="harness")  # which simulated process a task belongs to
+CONN = contextvars.ContextVar("sim_conn", default=0)  # which accepted connection a server-side task serves
 
 EPOCH = 1_700_000_000.0 - SimLoop.BASE  # time.time() == EPOCH + loop.time()
 REAL_CONTAMINATED = 1_750_000_000.0  # any mtime above this is a real (2026) one
